@@ -35,7 +35,8 @@ ASSUMPTIONS = [
     "a packet is 'requested' in a cycle in which no packet is in flight and the stream shows valid & (first | last); "
     "the PID must be offered from the next cycle on (the latency the repo's own test pins)",
 ]
-BOUNDS = "BMC from reset; quick K=16 (payloads up to 11 bytes without stalls), thorough K=22 free + K=34 with tx.ready=1"
+BOUNDS = "BMC from reset, all inputs free per cycle. Framing assertions: K=16 quick / K=22 thorough (+K=34 with " \
+         "tx.ready=1). CRC assertions: K=8 quick / K=10 thorough (payloads up to 4/6 bytes; +K=13 with tx.ready=1, best effort)"
 OUTSIDE = "payloads longer than the depth allows; producers that drop valid inside a packet; the multiplexer between " \
           "this generator and the handshake generator (C20)"
 
@@ -199,16 +200,31 @@ class TxHarness(Harness):
         return m
 
 
+CRC_ASSERTS = ["crc_low", "crc_high"]
+FRAMING_ASSERTS = ["pid", "payload", "valid_continuous", "idle_quiet", "exactly_once"]
+
+
 def queries(tier):
     thorough = tier != "quick"
     qs = []
     for tag, sa in (("device_wiring", False), ("standalone", True)):
         f = (lambda sa=sa: TxHarness(standalone=sa))
         K = 22 if thorough else 16
-        qs.append(Query(f"bmc_{tag}", f, K, timeout=900,
-                        desc=f"{tag}: producer choices, payload, last, data_pid and tx.ready free every cycle"))
+        qs.append(Query(f"bmc_{tag}", f, K, asserts=FRAMING_ASSERTS, timeout=900, split=False,
+                        desc=f"{tag}: PID / payload order / continuity / exactly-once; producer choices, payload, last, "
+                             "data_pid and tx.ready free every cycle"))
+        # the two CRC assertions compare two independently gated CRC accumulations; cost grows steeply with depth
+        # (K=9 35-56 s, K=12 > 100 s on a loaded machine), so they get their own shallower free layer
+        Kc = 10 if thorough else 8
+        qs.append(Query(f"bmc_crc_{tag}", f, Kc, asserts=CRC_ASSERTS, covers=[], timeout=900,
+                        desc=f"{tag}: CRC16 low/high byte of the accepted payload; everything free every cycle "
+                             f"(packets of up to {Kc - 4} bytes, or fewer with stalls)"))
         if thorough:
-            qs.append(Query(f"bmc_ready1_{tag}", f, 34, covers=[], layer={"tx_ready": 1}, timeout=900,
-                            desc=f"{tag}: restricted layer tx.ready = 1 (no stalls), longer payloads / more packets"))
+            qs.append(Query(f"bmc_crc_ready1_{tag}", f, 13, asserts=CRC_ASSERTS, covers=[], layer={"tx_ready": 1},
+                            timeout=900, required=False,
+                            desc=f"{tag}: restricted layer tx.ready = 1 (no stalls), payloads up to 9 bytes"))
+            qs.append(Query(f"bmc_ready1_{tag}", f, 34, asserts=FRAMING_ASSERTS, covers=[], layer={"tx_ready": 1},
+                            timeout=900, split=False,
+                            desc=f"{tag}: restricted layer tx.ready = 1, longer payloads / more packets (framing assertions)"))
         qs.append(Query(f"cosim_{tag}", f, 0, kind="cosim", cosim_cycles=300 if not thorough else 2000))
     return qs
